@@ -257,6 +257,10 @@ impl Property for C16 {
             gw.approve(&env, &set, &approvals)?;
         }
         let _ = stranger;
+        if case.seed % 7 == 5 {
+            upgrade_and_migrate(&env, &gw.id).map_err(|e| format!("setup: {}", e))?;
+            cx.label("gateway_upgraded_and_migrated_between_approval_and_delivery");
+        }
         if case.days_before > 0 {
             advance_ledgers(&env, DAY * case.days_before as u32);
             cx.label("days_pass_between_approval_and_delivery");
